@@ -117,6 +117,21 @@ impl HistMonitor for C01 {
         let before: BTreeSet<usize> = o.keys_before.iter().copied().collect();
         let after: BTreeSet<usize> = o.keys_after.iter().copied().collect();
         let removed: Vec<usize> = before.difference(&after).copied().collect();
+        // the statement identifies the set of present vertices by keys() and len(): the two must tell the same story
+        if o.panic.is_none() {
+            let g = &s.g;
+            if let Ok((l, e)) = crate::rec::guarded(|| (g.len(), g.is_empty())) {
+                ctx.c.inc("c01.len-vs-keys-compared");
+                if l != o.keys_after.len() || e != (l == 0) {
+                    return Some(format!(
+                        "after {}: len() = {l} and is_empty() = {e}, but keys() lists {} vertices {:?}",
+                        op.show(),
+                        o.keys_after.len(),
+                        o.keys_after
+                    ));
+                }
+            }
+        }
         match op {
             Op::Data(v) => {
                 let was_unread = self.unread.get(v).copied().unwrap_or(false);
